@@ -58,3 +58,57 @@ Proof.
     repeat (destruct Ht as [<-|Ht]; [repeat (destruct Hv as [<-|Hv]; [vm_compute; intros ea H; inversion H; reflexivity|]); contradiction|]); contradiction.
   - eexists. vm_compute. reflexivity.
 Qed.
+
+(* ---- Part 2: no hypothesis on the graph.  For ANY relation table with the table facts whose identity relations use
+   the default guard (the declaring type's contains_op, a function [cont] of the sequence) and the identity transformer,
+   and ANY closed list of types: the generated constructor builds the typeset, and whatever detect returns on it is the
+   input itself with a path from Generic along declared identity relations inside the typeset, every type of which
+   contains the input, ending in a type none of whose identity children in the typeset contains it. *)
+From Coq Require Import Permutation.
+From V Require Import NxFacts Graph_bridge GraphWF AlgebraTheory DetectWF Values Shipped_gen ShippedFacts PandasContains_gen TotalTheory ShippedGraph PandasDetect.
+
+Theorem C01_constructed_typesets :
+  forall (T D St L F : Type) (X : ctx T D St L F) (rk : T -> nat), table_ok X rk ->
+  forall cont : T -> D -> bool,
+    (forall t r, In r (relations X t) -> inferential r = false ->
+       (forall d st, relationship r d st = Ok (cont t d, st)) /\ (forall d st, transformer r d st = Ok (d, st))) ->
+  forall types w fuel d,
+    closed X types ->
+    exists ts w', VT_init X (VT_blank X) types w = Ok (tt, ts, w') /\
+      forall out ts', VT_detect X fuel ts d = Ok (out, ts') ->
+      exists rest,
+        out = (d, Generic X :: rest, empty_state X tt) /\
+        Forall (fun v => cont v d = true) rest /\
+        parent_chain X (Generic X) rest /\ Forall (fun v => In v types) rest /\
+        (forall v, In v types -> identity_parent_of X (last rest (Generic X)) v -> cont v d = false).
+Proof. intros T D St L F X rk H cont Hd. exact (detect_sound_for_constructed_typesets X rk H cont Hd). Qed.
+Print Assumptions C01_constructed_typesets.
+
+(* ---- Part 3: end to end in the model, for the pandas backend: the engine generated from typeset.py, the relation table
+   generated from types/*.py and the membership predicates generated from backends/pandas/types/*.py, composed.  For EVERY
+   abstract pandas series (dtype facts + value kinds; a categorical dtype has .cat), EVERY parent-closed list of shipped
+   types containing Generic in ANY supply and set-iteration order, and ANY guards/transformers on the inference relations. *)
+Theorem C01_pandas_end_to_end :
+  forall (si : list ty -> list ty), (forall l, NoDup l -> Permutation (si l) l) ->
+  forall (oguard : ty -> ty -> okseries -> unit -> res (bool * unit)) (otrans : ty -> ty -> okseries -> unit -> res (okseries * unit))
+         types w fuel (d : okseries),
+    In tGeneric types -> parent_closed types = true ->
+    let X := pandas_ctx si oguard otrans in
+    exists ts w', VT_init X (VT_blank X) types w = Ok (tt, ts, w') /\
+      forall out ts', VT_detect X fuel ts d = Ok (out, ts') ->
+      exists rest,
+        out = (d, tGeneric :: rest, tt) /\
+        Forall (fun v => pandas_contains v (proj1_sig d) = Ok true) rest /\
+        parent_chain X tGeneric rest /\ Forall (fun v => In v types) rest /\
+        (forall v, In v types -> identity_parent_of X (last rest tGeneric) v -> pandas_contains v (proj1_sig d) = Ok false).
+Proof. intros si Hsi oguard otrans. exact (pandas_detect_sound si Hsi oguard otrans). Qed.
+Print Assumptions C01_pandas_end_to_end.
+
+(* non-vacuity: a float64 series without missing values is detected Generic -> Float by CompleteSet's constructor output *)
+Definition ex_float_dtype : dfacts := mkDF false false false false false true false true false false false false false None.
+Definition ex_float_series : okseries := exist _ (mkS ex_float_dtype [mkV KFloat false false false]) eq_refl.
+Definition ex_ctx_pandas := pandas_ctx (fun l => l) (fun _ _ _ st => Ok (false, st)) (fun _ _ s st => Ok (s, st)).
+Example C01_pandas_example :
+  exists ts w, VT_init ex_ctx_pandas (VT_blank ex_ctx_pandas) complete_set [] = Ok (tt, ts, w) /\
+    exists ts', VT_detect ex_ctx_pandas 30 ts ex_float_series = Ok ((ex_float_series, [tGeneric; tFloat], tt), ts').
+Proof. eexists. eexists. split; [vm_compute; reflexivity|]. eexists. vm_compute. reflexivity. Qed.
